@@ -173,6 +173,16 @@ func generateRegexMatch(w io.Writer, lexerName, name, pattern string) error {
 	fmt.Fprintf(w, "// %s\n", re)
 	fmt.Fprintf(w, "func match%s%s(s string, p int, backrefs []string) (groups [%d]int) {\n", lexerName, name, 2*re.MaxCap()+2)
 	flattened := flatten(re)
+	for _, re := range flattened {
+		switch re.Op { // nolint: exhaustive
+		case syntax.OpWordBoundary, syntax.OpNoWordBoundary, syntax.OpBeginText, syntax.OpEndText, syntax.OpBeginLine, syntax.OpEndLine:
+			// Like the runtime lexer, treat the remaining input as a text of its own: ^, \b etc. see nothing before it.
+			fmt.Fprintf(w, "base := p\n")
+		default:
+			continue
+		}
+		break
+	}
 
 	// Fast-path a single literal.
 	if len(flattened) == 1 && re.Op == syntax.OpLiteral {
@@ -307,14 +317,14 @@ func generateRegexMatch(w io.Writer, lexerName, name, pattern string) error {
 			syntax.OpBeginText, syntax.OpEndText,
 			syntax.OpBeginLine, syntax.OpEndLine:
 			fmt.Fprintf(w, "var l, u rune = -1, -1\n")
-			fmt.Fprintf(w, "if p == 0 {\n")
+			fmt.Fprintf(w, "if p == base {\n")
 			fmt.Fprintf(w, "  if p < len(s) {\n")
-			decodeRune(w, "0", "u", "_")
+			decodeRune(w, "p", "u", "_")
 			fmt.Fprintf(w, "  }\n")
 			fmt.Fprintf(w, "} else if p == len(s) {\n")
-			fmt.Fprintf(w, "  l, _ = utf8.DecodeLastRuneInString(s)\n")
+			fmt.Fprintf(w, "  l, _ = utf8.DecodeLastRuneInString(s[base:])\n")
 			fmt.Fprintf(w, "} else {\n")
-			fmt.Fprintf(w, "  l, _ = utf8.DecodeLastRuneInString(s[0:p])\n")
+			fmt.Fprintf(w, "  l, _ = utf8.DecodeLastRuneInString(s[base:p])\n")
 			decodeRune(w, "p", "u", "_")
 			fmt.Fprintf(w, "}\n")
 			fmt.Fprintf(w, "op := syntax.EmptyOpContext(l, u)\n")
